@@ -37,14 +37,217 @@ pub proof fn lemma_vli_len(x: nat)
         }
 //@end
 
+// ---- the step interpreter's slice writer (encode.rs): a string / payload that does not fit the space left is split, and the split loses and repeats nothing
+// Vec capacity is not modelled by vstd: vcap() is an uninterpreted view; the std guarantee "no reallocation while len + additional <= capacity" is the assumed
+// specification of extend_from_slice below (A-VEC-CAPACITY).
+pub uninterp spec fn vcap<T, A: std::alloc::Allocator>(v: &Vec<T, A>) -> nat;
+pub assume_specification<T, A: std::alloc::Allocator> [Vec::<T, A>::capacity] (v: &Vec<T, A>) -> (r: usize)
+    ensures r == vcap(v), v@.len() <= r, r <= isize::MAX;   // std: a Vec never holds more than isize::MAX bytes
+// std type invariant of Vec: len <= capacity <= isize::MAX
+#[verifier::external_body] pub proof fn axiom_vec_capacity(v: &Vec<u8>) ensures v@.len() <= vcap(v) <= isize::MAX { }
+#[verifier::external_body]
+pub fn verif_extend_within_capacity(dest: &mut Vec<u8>, s: &[u8])
+    ensures final(dest)@ == old(dest)@ + s@,
+        old(dest)@.len() + s@.len() <= vcap(old(dest)) ==> vcap(final(dest)) == vcap(old(dest)),
+{ dest.extend_from_slice(s) }
+#[verifier::external_body]
+pub fn verif_slice_get_range<'a>(bytes: &'a [u8], from: usize, to: usize) -> (r: Option<&'a [u8]>)
+    ensures (from <= to <= bytes@.len()) ==> (r matches Some(s) && s@ == bytes@.subrange(from as int, to as int)),
+        !(from <= to <= bytes@.len()) ==> r is None,
+{ bytes.get(from..to) }
+
+//@fn gneiss-mqtt/src/encode.rs process_byte_slice_encoding props=C02,C13,C11
+//@@rewrite "bytes.get(offset..end_offset)" => "verif_slice_get_range(bytes, offset, end_offset)"
+//@@rewrite "dest.extend_from_slice(encodable_slice);" => "verif_extend_within_capacity(dest, encodable_slice);"
+    requires
+        offset <= bytes@.len(),
+    ensures
+        // exactly the next min(space, remaining) bytes of the slice are appended, in order
+        ({ let n = if vcap(old(dest)) - old(dest)@.len() < bytes@.len() - offset { vcap(old(dest)) - old(dest)@.len() } else { bytes@.len() - offset };
+           &&& final(dest)@ == old(dest)@ + bytes@.subrange(offset as int, offset + n)
+           &&& (r == 0 <==> (offset + n == bytes@.len() || (offset == 0 && n == 0)))
+           &&& (r != 0 ==> r == offset + n) }),
+        // the buffer is never grown
+        vcap(final(dest)) == vcap(old(dest)),
+        // nothing is dropped: a zero result with bytes left over needs a full buffer AND a zero offset (the caller's loop keeps 4 bytes free)
+        (vcap(old(dest)) > old(dest)@.len() && r == 0) ==> final(dest)@ == old(dest)@ + bytes@.subrange(offset as int, bytes@.len() as int),
+        // a non-zero result is the offset to continue from: progress was made and bytes remain
+        (vcap(old(dest)) > old(dest)@.len() && r != 0) ==> (offset < r < bytes@.len() && final(dest)@.len() == vcap(final(dest))),
+//@end
+
+// ---- the step interpreter (encode.rs): Encoder::encode writes the pending steps into whatever room the caller's buffer has; what the proofs below decide is
+// that the bytes appended over any number of calls, with any buffer sizes >= 4, are exactly flat(steps) - nothing lost, repeated or reordered at a buffer boundary.
+// R16: the fn-pointer fields of EncodingStep are opaque handles; a call through one is an assumed deterministic function of (handle, packet[, index])
+// (A-GETTER-PURE: the getters are pure field accessors).
+#[verifier::external_body] #[derive(Clone, Copy)] pub struct FnP_MqttPacket__str(usize);   // placeholder field: the unit is verified, never run
+#[verifier::external_body] #[derive(Clone, Copy)] pub struct FnP_MqttPacket__bytes(usize);   // placeholder field: the unit is verified, never run
+#[verifier::external_body] #[derive(Clone, Copy)] pub struct FnP_MqttPacket_usize__str(usize);   // placeholder field: the unit is verified, never run
+#[verifier::external_body] #[derive(Clone, Copy)] pub struct FnP_MqttPacket_usize__UserProperty(usize);   // placeholder field: the unit is verified, never run
+pub uninterp spec fn g_str(g: FnP_MqttPacket__str, p: MqttPacket) -> Seq<u8>;
+pub uninterp spec fn g_bytes(g: FnP_MqttPacket__bytes, p: MqttPacket) -> Seq<u8>;
+pub uninterp spec fn g_istr(g: FnP_MqttPacket_usize__str, p: MqttPacket, i: usize) -> Seq<u8>;
+pub uninterp spec fn g_upname(g: FnP_MqttPacket_usize__UserProperty, p: MqttPacket, i: usize) -> Seq<u8>;
+pub uninterp spec fn g_upvalue(g: FnP_MqttPacket_usize__UserProperty, p: MqttPacket, i: usize) -> Seq<u8>;
+#[verifier::external_body] pub fn verif_call_str<'a>(g: FnP_MqttPacket__str, p: &'a MqttPacket) -> (r: &'a [u8]) ensures r@ == g_str(g, *p) { unimplemented!() }
+#[verifier::external_body] pub fn verif_call_bytes<'a>(g: FnP_MqttPacket__bytes, p: &'a MqttPacket) -> (r: &'a [u8]) ensures r@ == g_bytes(g, *p) { unimplemented!() }
+#[verifier::external_body] pub fn verif_call_istr<'a>(g: FnP_MqttPacket_usize__str, p: &'a MqttPacket, i: usize) -> (r: &'a [u8]) ensures r@ == g_istr(g, *p, i) { unimplemented!() }
+#[verifier::external_body] pub fn verif_call_upname<'a>(g: FnP_MqttPacket_usize__UserProperty, p: &'a MqttPacket, i: usize) -> (r: &'a [u8]) ensures r@ == g_upname(g, *p, i) { unimplemented!() }
+#[verifier::external_body] pub fn verif_call_upvalue<'a>(g: FnP_MqttPacket_usize__UserProperty, p: &'a MqttPacket, i: usize) -> (r: &'a [u8]) ensures r@ == g_upvalue(g, *p, i) { unimplemented!() }
+#[verifier::external_body]
+pub fn verif_push_within_capacity(dest: &mut Vec<u8>, b: u8)
+    ensures final(dest)@ == old(dest)@.push(b),
+        old(dest)@.len() + 1 <= vcap(old(dest)) ==> vcap(final(dest)) == vcap(old(dest)),
+{ dest.push(b) }
+pub open spec fn be16_bytes(v: u16) -> Seq<u8> { seq![(v / 256) as u8, (v % 256) as u8] }
+pub open spec fn be32_bytes(v: u32) -> Seq<u8> { seq![(v / 16777216) as u8, ((v / 65536) % 256) as u8, ((v / 256) % 256) as u8, (v % 256) as u8] }
+pub trait VerifBe: Sized {
+    spec fn be(self) -> Seq<u8>;
+    fn verif_extend_be(self, dest: &mut Vec<u8>)
+        ensures final(dest)@ == old(dest)@ + self.be(),
+            old(dest)@.len() + self.be().len() <= vcap(old(dest)) ==> vcap(final(dest)) == vcap(old(dest));
+}
+impl VerifBe for u16 {
+    open spec fn be(self) -> Seq<u8> { be16_bytes(self) }
+    #[verifier::external_body] fn verif_extend_be(self, dest: &mut Vec<u8>) { dest.extend_from_slice(&self.to_be_bytes()) }
+}
+impl VerifBe for u32 {
+    open spec fn be(self) -> Seq<u8> { be32_bytes(self) }
+    #[verifier::external_body] fn verif_extend_be(self, dest: &mut Vec<u8>) { dest.extend_from_slice(&self.to_be_bytes()) }
+}
+
+//@enum gneiss-mqtt/src/encode.rs EncodingStep fnptr_opaque
+//@enum gneiss-mqtt/src/encode.rs EncodeResult
+//@struct gneiss-mqtt/src/encode.rs Encoder
+
+// the whole byte string a step stands for, and what is left of it from its offset
+pub open spec fn step_whole(s: EncodingStep, p: MqttPacket) -> Seq<u8> {
+    match s {
+        EncodingStep::Uint8(v) => seq![v],
+        EncodingStep::Uint16(v) => be16_bytes(v),
+        EncodingStep::Uint32(v) => be32_bytes(v),
+        EncodingStep::Vli(v) => vli(v as nat),
+        EncodingStep::StringSlice(g, _) => g_str(g, p),
+        EncodingStep::BytesSlice(g, _) => g_bytes(g, p),
+        EncodingStep::IndexedString(g, i, _) => g_istr(g, p, i),
+        EncodingStep::UserPropertyName(g, i, _) => g_upname(g, p, i),
+        EncodingStep::UserPropertyValue(g, i, _) => g_upvalue(g, p, i),
+    }
+}
+pub open spec fn step_off(s: EncodingStep) -> int {
+    match s {
+        EncodingStep::StringSlice(_, o) => o as int,
+        EncodingStep::BytesSlice(_, o) => o as int,
+        EncodingStep::IndexedString(_, _, o) => o as int,
+        EncodingStep::UserPropertyName(_, _, o) => o as int,
+        EncodingStep::UserPropertyValue(_, _, o) => o as int,
+        _ => 0,
+    }
+}
+pub open spec fn step_wf(s: EncodingStep, p: MqttPacket) -> bool { 0 <= step_off(s) <= step_whole(s, p).len() }
+pub open spec fn step_bytes(s: EncodingStep, p: MqttPacket) -> Seq<u8> { step_whole(s, p).subrange(step_off(s), step_whole(s, p).len() as int) }
+pub open spec fn steps_wf(s: Seq<EncodingStep>, p: MqttPacket) -> bool { forall|i: int| 0 <= i < s.len() ==> step_wf(#[trigger] s[i], p) }
+pub open spec fn flat(s: Seq<EncodingStep>, p: MqttPacket) -> Seq<u8>
+    decreases s.len()
+{
+    if s.len() == 0 { Seq::<u8>::empty() } else { step_bytes(s[0], p) + flat(s.subrange(1, s.len() as int), p) }
+}
+pub proof fn lemma_flat_cons(x: EncodingStep, s: Seq<EncodingStep>, p: MqttPacket)
+    ensures flat(seq![x] + s, p) == step_bytes(x, p) + flat(s, p),
+{
+    let t = seq![x] + s;
+    assert(t.subrange(1, t.len() as int) =~= s);
+}
+
+//@fn gneiss-mqtt/src/encode.rs process_encoding_step props=C02,C13,C11
+//@@rewrite "getter(packet).as_bytes()" => "verif_call_str(getter, packet)"
+//@@rewrite "= getter(packet);" => "= verif_call_bytes(getter, packet);"
+//@@rewrite "getter(packet, index).as_bytes()" => "verif_call_istr(getter, packet, index)"
+//@@rewrite "getter(packet, index).name.as_bytes()" => "verif_call_upname(getter, packet, index)"
+//@@rewrite "getter(packet, index).value.as_bytes()" => "verif_call_upvalue(getter, packet, index)"
+//@@rewrite "dest.push(val);" => "verif_push_within_capacity(dest, val);"
+//@@rewrite "dest.extend_from_slice(&val.to_be_bytes());" => "val.verif_extend_be(dest);"
+    requires
+        step_wf(step, *packet),
+        steps_wf(old(steps)@, *packet),
+        old(dest)@.len() + 4 <= vcap(old(dest)),
+    ensures
+        r is Ok ==> final(dest)@ + flat(final(steps)@, *packet) == old(dest)@ + step_bytes(step, *packet) + flat(old(steps)@, *packet),
+        r is Ok ==> steps_wf(final(steps)@, *packet),
+        r is Ok ==> vcap(final(dest)) == vcap(old(dest)),
+        // either the step is finished, or the rest of it is put back at the FRONT and the buffer is full
+        r is Ok ==> (final(steps)@ == old(steps)@ || (final(steps)@.len() == old(steps)@.len() + 1 && final(dest)@.len() == vcap(final(dest)))),
+        r is Err ==> (step matches EncodingStep::Vli(v) && v > 268435455),
+//@@at bodystart
+    let ghost steps0 = steps@;
+    proof {
+        assert(step_off(step) == 0 ==> step_bytes(step, *packet) =~= step_whole(step, *packet));
+        lemma_vli_len(match step { EncodingStep::Vli(v) => v as nat, _ => 0nat });
+    }
+//@@at after "if end_offset > 0 { @nth=1/5"
+                proof {
+                    lemma_flat_cons(EncodingStep::StringSlice(getter, end_offset), steps0, *packet);
+                    assert(slice@.subrange(offset as int, slice@.len() as int) =~= slice@.subrange(offset as int, end_offset as int) + slice@.subrange(end_offset as int, slice@.len() as int));
+                }
+//@@at after "if end_offset > 0 { @nth=2/5"
+                proof {
+                    lemma_flat_cons(EncodingStep::BytesSlice(getter, end_offset), steps0, *packet);
+                    assert(slice@.subrange(offset as int, slice@.len() as int) =~= slice@.subrange(offset as int, end_offset as int) + slice@.subrange(end_offset as int, slice@.len() as int));
+                }
+//@@at after "if end_offset > 0 { @nth=3/5"
+                proof {
+                    lemma_flat_cons(EncodingStep::IndexedString(getter, index, end_offset), steps0, *packet);
+                    assert(slice@.subrange(offset as int, slice@.len() as int) =~= slice@.subrange(offset as int, end_offset as int) + slice@.subrange(end_offset as int, slice@.len() as int));
+                }
+//@@at after "if end_offset > 0 { @nth=4/5"
+                proof {
+                    lemma_flat_cons(EncodingStep::UserPropertyName(getter, index, end_offset), steps0, *packet);
+                    assert(slice@.subrange(offset as int, slice@.len() as int) =~= slice@.subrange(offset as int, end_offset as int) + slice@.subrange(end_offset as int, slice@.len() as int));
+                }
+//@@at after "if end_offset > 0 { @nth=5/5"
+                proof {
+                    lemma_flat_cons(EncodingStep::UserPropertyValue(getter, index, end_offset), steps0, *packet);
+                    assert(slice@.subrange(offset as int, slice@.len() as int) =~= slice@.subrange(offset as int, end_offset as int) + slice@.subrange(end_offset as int, slice@.len() as int));
+                }
+//@end
+
+impl Encoder {
+//@fn gneiss-mqtt/src/encode.rs Encoder::encode props=C02,C13,C11
+    requires
+        steps_wf(old(self).steps@, *packet),
+        vcap(old(dest)) >= 4,       // the function panics otherwise, by design ("target buffer too small")
+    ensures
+        r matches Ok(EncodeResult::Complete) ==> final(dest)@ == old(dest)@ + flat(old(self).steps@, *packet) && final(self).steps@.len() == 0,
+        r matches Ok(EncodeResult::Full) ==> final(dest)@ + flat(final(self).steps@, *packet) == old(dest)@ + flat(old(self).steps@, *packet)
+            && final(self).steps@.len() > 0 && final(dest)@.len() + 4 > vcap(final(dest)),
+        r is Ok ==> steps_wf(final(self).steps@, *packet) && vcap(final(dest)) == vcap(old(dest)),
+//@@loop 0
+        invariant
+            steps_wf(self.steps@, *packet),
+            vcap(dest) == capacity,
+            dest@.len() <= vcap(dest) <= isize::MAX,
+            dest@ + flat(self.steps@, *packet) == old(dest)@ + flat(old(self).steps@, *packet),
+        decreases self.steps@.len() + (if dest@.len() + 4 <= vcap(dest) { 1int } else { 0int }),
+//@@at after "process_encoding_step(&mut self.steps, step, packet, dest)?;"
+            proof { axiom_vec_capacity(dest); }
+//@end
+}
+
 //@fn gneiss-mqtt/src/encode.rs encode_vli props=C02
+//@@rewrite "dest.push(byte);" => "verif_push_within_capacity(dest, byte);"
     ensures
         r is Err <==> value > 268435455,
         r is Ok ==> final(dest)@ == old(dest)@ + vli(value as nat),
         r is Err ==> final(dest)@ == old(dest)@,
+        // with room for 4 bytes the buffer is never grown
+        old(dest)@.len() + 4 <= vcap(old(dest)) ==> vcap(final(dest)) == vcap(old(dest)),
+//@@at before "let mut done = false;"
+    proof { lemma_vli_len(value as nat); }
 //@@loop 0
         invariant
             val <= value,
+            value <= 268435455,
+            vli(value as nat).len() <= 4,
+            old(dest)@.len() + 4 <= vcap(old(dest)) ==> vcap(dest) == vcap(old(dest)),
             !done ==> old(dest)@ + vli(value as nat) == dest@ + vli(val as nat),
             done ==> dest@ == old(dest)@ + vli(value as nat),
         decreases (if done { 0int } else { val as int + 1 }),
@@ -61,7 +264,7 @@ pub proof fn lemma_vli_len(x: nat)
                 let b0 = (val0 % 128) as u8;
                 assert(b0 < 128 ==> (b0 | 128u8) == (b0 + 128) as u8) by (bit_vector);
             }
-//@@at after "dest.push(byte);"
+//@@at after "verif_push_within_capacity(dest, byte);"
             proof {
                 if val0 < 128 {
                     assert(vli(val0 as nat) =~= seq![val0 as u8]);
